@@ -36,6 +36,31 @@ CHECKS = {
          "For 134+ peer sets (sizes 1-8, arbitrary strings) x all configuration orders (all permutations up to size 5) x 10^3-10^4 subscriber ids: same owner on every node, ranked list starts with the owner and is a permutation of the peer set, removal/unhealthy moves only the affected peer's subscribers (all 2^n health vectors for n<=4/6), and a request entering at any of 3 real nodes is served by exactly one pool with the same NodeID.",
          "Trusted: the comparison logic; loopback HTTP. FNV-64 score ties are not generated; concurrent ring changes are outside C17's quantifier.",
          "DESIGN.md §5 C17"),
+ "C06": ("c06_layout", "other",
+         "executed differential layout check: BTF of the compiled working-tree objects vs the Go mirror types' encoding/binary layout, sentinel round trips through the real control-plane APIs into kernel maps of the loaded objects, derived keys compared with the key bytes the natively executed program passes to bpf_map_lookup_elem, and C-laid-out values read back through the Go getters",
+         "Every (Go type, C declaration) pair used as a map key/value or event record in bpf/*.c and pkg/{ebpf,nat,qos,antispoof} is compared member by member (size, offset, width; C offsets come from the object's BTF or, for event records, from offsetof in the natively compiled unit); real manager calls write sentinels that must appear at the C member's offset in the byte order the program consumes; MAC/VLAN/circuit-id keys and the FNV hash are compared for hundreds to tens of thousands of random inputs (hardware address lengths 6-16, PCP bits, embedded NULs) against the executed program; getters are run against the real per-CPU maps.",
+         "Trusted: cilium/ebpf's BTF reader and marshalling rules; the table pairing map names with Go types (a Go-side rename breaks the build, an unlisted map used by Go is reported inconclusive). pkg/walledgarden has no C counterpart and is not claimed. NAT address byte order is a listed known finding.",
+         "DESIGN.md §5 C06"),
+ "C14": ("c14_failover", "exploration",
+         "online monitor over the real FailoverController + HealthMonitor under testing/synctest virtual time: BFS with state fingerprinting over health probes, exact timer deltas, operator commands and callback outcomes, seeded random walks, and concurrent rounds under the Go race detector",
+         "Every standby->active change is judged against the down intervals computed from the injected probe results and the documented thresholds (sustained for FailoverDelay, recovery before the delay cancels), role changes require a nil-returning callback, completed events equal promotions, failback only while the partner is healthy, and no in-progress state may outlive GracePeriod without a transition; observations are taken at every instant derived from the configured delays (+-1 ns).",
+         "Trusted: the reference model of partner up/down from thresholds; synctest virtual time. The HTTP probe path and callbacks that take virtual time are not driven; BFS fingerprint pruning is an abstraction (random walks and concurrent rounds are not pruned).",
+         "DESIGN.md §5 C14"),
+ "C15": ("c15_coa", "exploration",
+         "independent-implementation oracle (RFC 5176/2865 request authenticator) over the real CoA listener on loopback UDP in a child process, every datagram followed by an authentic fence probe so that 'no effect' is decided without a clock",
+         "For 50 (quick) / 1200 (thorough) signed base requests with distinct secrets: every bit flip of the first 64 octets, every octet substitution beyond, every length-field value, every truncation, re-signing with neighbouring secrets, padding with forged attributes, other codes and malformed attributes; handler invocations, responses (identifier echo, response authenticator, code consistency) and session changes are judged against the oracle; a listener death is confirmed on a fresh process and attributed to the datagram.",
+         "Trusted: the harness's MD5 oracle; loopback FIFO delivery and the listener being sequential (stated in evidence). MD5 collisions and responses sent elsewhere are out of reach.",
+         "DESIGN.md §5 C15"),
+ "C19": ("c19_qos", "exploration",
+         "exact integer-arithmetic contract monitor over verdict sequences of the natively compiled TC programs (ASan/UBSan, scripted clock) with buckets written by the real qos.Manager into kernel maps of the loaded object; adaptive backlogged sources for the lower bound",
+         "Every window of every arrival sequence (sizes 1-65535, gaps 0 ns to days, clock origins to 2^63, rates 1 kbit/s-100 Gbit/s, bursts 1-2^32-1, policy replacement sequences) is judged in big-integer arithmetic against burst + rate x window; sources that always have a packet waiting (next packet at the same instant after an admit, retry after a gap when dropped, gaps down to below one byte-time) are judged against rate x window - burst - M; rate 0 must admit everything; a frame addressed to the subscriber must find the bucket the manager wrote.",
+         "Trusted: the contract arithmetic (one nanosecond of credit per clock observation allowed either way); the native shim (the same object is loaded in the kernel for the maps; the clock cannot be scripted there). Lower bound only under the premises of DESIGN 5b.",
+         "DESIGN.md §5 C19"),
+ "C20": ("c20_keys", "exploration",
+         "bijection shadow-model monitor over the real key allocators and indexes: bounded-exhaustive histories (replayed from scratch, symmetry-pruned) plus seeded random walks, ending in drain-to-exhaustion; circuit-id key families compared pairwise and driven through real kernel hash maps",
+         "After every operation forward and reverse lookups are compared with the model for VLANAllocator, qinq.Mapper, pppoe.SessionManager (incl. id wrap-around and two sessions from one MAC), MemoryAllocationStore, subscriber.Manager and state.Store; ranges are checked; every history ends by draining the allocator so a released key must be obtainable again; for stores that cannot refuse a duplicate key the weaker sole-holder oracle of DESIGN 5b is used.",
+         "Trusted: the bijection model. 64-bit FNV collisions cannot be generated; concurrency is outside C20's quantifier. state.Store index defects are listed known findings.",
+         "DESIGN.md §5 C20"),
 }
 
 REASON_TODO = "check not yet built in this revision of /verif (planned in DESIGN.md §5); nothing is claimed for it"
